@@ -402,6 +402,7 @@ def scanner_sibling_rules(ctx, rule_blank, rule_line):
                 ctx.oblige(rule_blank, f"{fname}: blank test at line {n.lineno} drives a loop", ok, sample={"rule": "R-C09.6", "function": fname, "construct": S.unparse(holder)[:80] if holder is not None else None})
                 if not ok:
                     viol(rule_blank, f"blank-skip:{fname}:{S.unparse(n)}", f"in {fname} the blank test `{S.unparse(n)}` guards an `if`, while every other blank-skipping site is a loop: only one blank is skipped, so extra spaces or tabs end up in the token text / break the directive", f"CLexer.{fname}", holder)
+    find_results_checked(ctx, rule_line)
     skippers = _blank_skippers(lx)
     for fname, fn in lx.methods("CLexer").items():
         for n in ast.walk(fn):
@@ -512,6 +513,83 @@ def scanner_sibling_rules(ctx, rule_blank, rule_line):
         if not ok:
             viol(rule_line, f"ppline-trailing-blanks:{S.unparse(n.test)}:{idx}", f"in _handle_ppline the end-of-line test `{S.unparse(n.test)}` is not immediately preceded by blank skipping, unlike its siblings: a directive that ends here followed by "
                  "spaces or tabs (`# 7 ` + newline) is not recognised as complete and is reported as invalid", "CLexer._handle_ppline", n)
+
+
+def find_results_checked(ctx, rid):
+    """`text.find(...)` answers -1 when nothing is found.  Every value bound to such a result must be sanitised (`if v == -1: v = <end>` right
+    after the call, or an early exit) before it is used as an offset, or be used only under a test that excludes -1: an unchecked -1 is a valid
+    index / slice bound in Python (it counts from the end), so the scanner would silently cut or drop text at the end of the input - the result
+    would depend on whether the input ends with a newline."""
+    lx = S.module("c_lexer")
+    n = 0
+    for fname, fn in lx.methods("CLexer").items():
+        for a in ast.walk(fn):
+            if not (isinstance(a, ast.Assign) and len(a.targets) == 1 and isinstance(a.targets[0], ast.Name) and isinstance(a.value, ast.Call)
+                    and isinstance(a.value.func, ast.Attribute) and a.value.func.attr in ("find", "rfind")):
+                continue
+            v = a.targets[0].id
+            n += 1
+
+            def is_neg_test(t, want_found):
+                """t is a test that holds exactly when v is a real offset (want_found) / when v is -1 (not want_found)"""
+                if isinstance(t, ast.UnaryOp) and isinstance(t.op, ast.Not):
+                    return is_neg_test(t.operand, not want_found)
+                if isinstance(t, ast.BoolOp) and isinstance(t.op, ast.And) and want_found:
+                    return any(is_neg_test(x, True) for x in t.values)
+                if not (isinstance(t, ast.Compare) and len(t.ops) == 1 and isinstance(t.left, ast.Name) and t.left.id == v):
+                    return False
+                op, c = t.ops[0], t.comparators[0]
+                val = c.value if isinstance(c, ast.Constant) else (-c.operand.value if isinstance(c, ast.UnaryOp) and isinstance(c.op, ast.USub) and isinstance(c.operand, ast.Constant) else None)
+                if val is None:
+                    return False
+                found = (isinstance(op, ast.NotEq) and val == -1) or (isinstance(op, ast.GtE) and val == 0) or (isinstance(op, ast.Gt) and val == -1)
+                missing = (isinstance(op, ast.Eq) and val == -1) or (isinstance(op, ast.Lt) and val == 0) or (isinstance(op, ast.LtE) and val == -1)
+                return found if want_found else missing
+            blk, idx = _block_of(a)
+            sanitised_from = None
+            for st in blk[idx + 1:]:
+                if isinstance(st, ast.If) and is_neg_test(st.test, False) and not st.orelse:
+                    last = st.body[-1] if st.body else None
+                    rebinds = any(isinstance(x, ast.Assign) and any(isinstance(t, ast.Name) and t.id == v for t in x.targets) for x in st.body)
+                    if rebinds or isinstance(last, (ast.Return, ast.Continue, ast.Break, ast.Raise)):
+                        sanitised_from = st.lineno
+                        break
+                if any(isinstance(x, ast.Name) and x.id == v for x in ast.walk(st)):
+                    break
+            bad = []
+            for u in ast.walk(fn):
+                if not (isinstance(u, ast.Name) and u.id == v and isinstance(u.ctx, ast.Load)) or u.lineno < a.lineno or (u.lineno == a.lineno and u.col_offset <= a.col_offset):
+                    continue
+                if sanitised_from is not None and u.lineno > sanitised_from:
+                    continue
+                # the use is the test itself, or lies in a branch that a test of v protects
+                cur, ok = u, False
+                while cur is not fn and cur is not None:
+                    par = getattr(cur, "_parent", None)
+                    if isinstance(par, (ast.If, ast.IfExp, ast.While)):
+                        if cur is par.test:
+                            tt = par.test
+                            if any(is_neg_test(x, True) or is_neg_test(x, False) for x in ast.walk(tt) if isinstance(x, (ast.Compare, ast.UnaryOp, ast.BoolOp))):
+                                ok = True
+                        else:
+                            in_body = (cur is par.body) if isinstance(par, ast.IfExp) else any(x is cur for x in par.body)
+                            if (in_body and is_neg_test(par.test, True)) or (not in_body and is_neg_test(par.test, False)):
+                                ok = True
+                    if ok:
+                        break
+                    cur = par
+                if not ok:
+                    bad.append(u)
+            ok = not bad
+            ctx.oblige(rid, f"{fname}: result of `{S.unparse(a.value)[:40]}` is checked for -1 before use", ok, sample={"rule": rid, "function": fname, "call": S.unparse(a)[:70], "verdict": "sanitised / guarded" if ok else f"used unchecked at line {bad[0].lineno}"})
+            if not ok:
+                st_ = bad[0]
+                while not isinstance(st_, ast.stmt) and getattr(st_, "_parent", None) is not None:
+                    st_ = st_._parent
+                ctx.violation(rid, f"find-unchecked:{fname}:{S.unparse(a.value.func)}", f"in {fname} the result of `{S.unparse(a.value)[:50]}` (-1 when nothing is found, i.e. at the end of an input that does not end with a newline) is used "
+                              f"without a -1 check (`{S.unparse(st_)[:80]}`): as an index or slice bound -1 counts from the end, so the scanner cuts or drops text when the construct is the last thing in the input - "
+                              "the result depends on a trailing newline", file=lx.rel, function=f"CLexer.{fname}", line=bad[0].lineno, construct=S.unparse(st_)[:160])
+    ctx.info["find_result_sites"] = n
 
 
 def ppline_number_language(ctx, rid):
